@@ -61,8 +61,8 @@ def join_tokens(rng, toks):
     return pre + ''.join(out) + rng.choice(['', '', ' ', '\n'])
 
 
-def gen_skin(rng, fault=None):
-    geoms = gen_geoms(rng, rng.randint(1, 3))
+def gen_skin(rng, fault=None, geoms=None, cid='ctrl', build=True):
+    geoms = geoms or gen_geoms(rng, rng.randint(1, 3))
     nj = rng.randint(1, 6)
     prefix = rng.choice(['j', 'bone_', 'Joint.', 'n-'])
     names = ['%s%d' % (prefix, k) for k in rng.sample(range(20), nj)]
@@ -122,7 +122,7 @@ def gen_skin(rng, fault=None):
     exp = {'outcome': 'ok', 'nind': nind}
     if fault in XML_FAULTS_SKIN:
         if fault == 'blank-bind-shape' and bind is None:
-            return gen_skin(rng, fault)
+            return gen_skin(rng, fault, geoms, cid, build)
         case['fault'] = fault
         case['xml_fault'] = [fault, rng.randrange(1000)]
         exp = {'outcome': 'ref-error', 'code': XML_FAULTS_SKIN[fault], 'why': fault}
@@ -133,7 +133,7 @@ def gen_skin(rng, fault=None):
     elif fault is not None:
         why = apply_fault(rng, case, fault, nind, oj, ow, lim_j, nw)
         if why is None:
-            return gen_skin(rng, fault)
+            return gen_skin(rng, fault, geoms, cid, build)
         case['fault'] = fault
         exp = {'outcome': 'malformed', 'why': why}
     else:
@@ -146,8 +146,22 @@ def gen_skin(rng, fault=None):
                     'joint_matrices': [[nm, m] for nm, m in zip(names, mats)],
                     'bind_shape': bind if bind is not None else IDENT})
     case['expect'] = exp
-    case['xml'] = doc_xml(rng, case)
+    case['cid'] = cid
+    if build:
+        add_extras(rng, case)
+        case['xml'] = doc_xml(rng, case)
     return case
+
+
+def add_extras(rng, case):
+    """further, well-formed controllers in the same document (own sources - the same source ids are
+    re-used on purpose -, own instances in the scene)"""
+    case['extras'] = []
+    if rng.random() < 0.3:
+        for k in range(rng.choice([1, 1, 2])):
+            gen = gen_skin if rng.random() < 0.6 else gen_morph
+            case['extras'].append(gen(rng, None, case['geoms'], 'extra%d' % k, False))
+    case['ctrl_order'] = rng.sample(range(1 + len(case['extras'])), 1 + len(case['extras']))
 
 
 def apply_fault(rng, case, fault, nind, oj, ow, lim_j, nw):
@@ -266,8 +280,8 @@ def scene_paths(scene):
     return out
 
 
-def gen_morph(rng, fault=None):
-    geoms = gen_geoms(rng, rng.randint(1, 4))
+def gen_morph(rng, fault=None, geoms=None, cid='ctrl', build=True):
+    geoms = geoms or gen_geoms(rng, rng.randint(1, 4))
     ids = [g['id'] for g in geoms]
     nt = rng.choice([0, 1, 2, 3, 5])
     targets = [rng.choice(ids) for _ in range(nt)]
@@ -330,7 +344,10 @@ def gen_morph(rng, fault=None):
         case['fault'] = 'mismatch'
         exp = {'outcome': 'malformed', 'why': '%d targets, %d weights' % (len(ts['values']), len(ms['values']))}
     case['expect'] = exp
-    case['xml'] = doc_xml(rng, case)
+    case['cid'] = cid
+    if build:
+        add_extras(rng, case)
+        case['xml'] = doc_xml(rng, case)
     return case
 
 
@@ -384,7 +401,30 @@ def text_el(tag, text, style):
     return '<%s>%s</%s>' % (tag, text, tag)
 
 
-def doc_xml(rng, case):
+def doc_xml(rng, top):
+    subs = [top] + (top.get('extras') or [])
+    order = top.get('ctrl_order') or list(range(len(subs)))
+    counter = [0]
+    bodies, libnodes, inners = [], [], []
+    for k in order:
+        b, ln, inner = controller_xml(rng, subs[k], counter)
+        bodies.append('<controller id="%s">%s</controller>' % (subs[k].get('cid', 'ctrl'), b))
+        libnodes.append(ln)
+        inners.append(inner)
+    ln = ''.join(libnodes)
+    return ('<?xml version="1.0" encoding="utf-8"?>\n<COLLADA xmlns="%s" version="1.4.1">'
+            '<asset><created>2020-01-01T00:00:00Z</created><modified>2020-01-01T00:00:00Z</modified></asset>'
+            '<library_geometries>%s</library_geometries>'
+            '<library_controllers>%s</library_controllers>%s'
+            '<library_visual_scenes><visual_scene id="vs">%s</visual_scene></library_visual_scenes>'
+            '<scene><instance_visual_scene url="#vs"/></scene></COLLADA>'
+            % (NS, ''.join(geom_xml(g) for g in top['geoms']), ''.join(bodies),
+               '<library_nodes>%s</library_nodes>' % ln if ln else '', ''.join(inners)))
+
+
+def controller_xml(rng, case, counter):
+    """-> (content of the <controller>, library_nodes content, visual_scene content)"""
+    cid = case.get('cid', 'ctrl')
     xf, xk = case.get('xml_fault') or (None, 0)
     DEC = ' xmlns:x="urn:decoy"'
     srcs = ''.join(source_xml(rng, s, xf if (xf in ('no-params', 'no-array') and i == xk % len(case['sources'])) else None)
@@ -440,8 +480,6 @@ def doc_xml(rng, case):
         elif xf == 'no-base-attr':
             base = ''
         body = '<morph%s%s>%s%s</morph>' % (base, method, srcs, targets)
-    counter = [0]
-
     def chain(mats, inner):
         """nested <node><matrix/>...</node> around `inner` (at least one node)"""
         for m in reversed(mats):
@@ -454,25 +492,19 @@ def doc_xml(rng, case):
 
     scene = case.get('scene') or {'kind': 'direct', 'nodes': case['nodes']}
     libnodes = ''
+    inst = '<instance_controller url="#%s"/>' % cid
     if scene['kind'] == 'direct':
-        inner = chain(scene['nodes'], '<instance_controller url="#ctrl"/>')
+        inner = chain(scene['nodes'], inst)
     else:
-        rig = '<node id="rig">%s</node>' % chain(scene['rig'], '<instance_controller url="#ctrl"/>')
-        libnodes = '<library_nodes>%s</library_nodes>' % rig
+        libnodes = '<node id="rig-%s">%s</node>' % (cid, chain(scene['rig'], inst))
         tops = []
         for k, u in enumerate(scene['uses']):
-            use = '<instance_node url="#rig"/>'
+            use = '<instance_node url="#rig-%s"/>' % cid
             if k == 0 and scene['nested_extra'] is not None:
-                use += chain(scene['nested_extra'], '<instance_node url="#rig"/>')
+                use += chain(scene['nested_extra'], '<instance_node url="#rig-%s"/>' % cid)
             tops.append(chain(u, use))
         inner = ''.join(tops)
-    return ('<?xml version="1.0" encoding="utf-8"?>\n<COLLADA xmlns="%s" version="1.4.1">'
-            '<asset><created>2020-01-01T00:00:00Z</created><modified>2020-01-01T00:00:00Z</modified></asset>'
-            '<library_geometries>%s</library_geometries>'
-            '<library_controllers><controller id="ctrl">%s</controller></library_controllers>%s'
-            '<library_visual_scenes><visual_scene id="vs">%s</visual_scene></library_visual_scenes>'
-            '<scene><instance_visual_scene url="#vs"/></scene></COLLADA>'
-            % (NS, ''.join(geom_xml(g) for g in case['geoms']), body, libnodes, inner))
+    return body, libnodes, inner
 
 
 # ------------------------------------------------------------------ encoding
@@ -652,6 +684,11 @@ def run(ctx):
         if r.get('obs') is None:
             continue
         ts = encode(c, r['obs'])
+        for k, sub in enumerate(c.get('extras') or []):
+            eo = (r['obs'].get('extras') or [])
+            if ts is not None and k < len(eo) and eo[k].get('view') is not None:
+                more = encode(dict(sub, xml=c['xml']), eo[k])
+                ts = None if more is None else ts + more
         if ts is None:
             unenc += 1
             mismatches.append({'case_index': i, 'input': c, 'why': 'observed matrices / weights are not the generated integers',
@@ -676,6 +713,7 @@ def run(ctx):
         bump(dist['kind'], c['kind'])
         bump(dist['fault'], c['fault'])
         bump(dist['nodes'], len(c['nodes']))
+        bump(dist.setdefault('controllers_per_document', {}), 1 + len(c.get('extras') or []))
         bump(dist.setdefault('paths_to_controller', {}), len(c.get('paths') or [1]))
         bump(dist['codes'], (r.get('obs') or {}).get('code'))
         if c['kind'] == 'skin':
